@@ -35,7 +35,7 @@ def r1_rejection_noop(ctx):
         whole = [w for w in b.writes_whole(1)] if hasattr(b, "writes_whole") else []
     asg = [(bi2, si, s) for bi2, si, s in b.iter_stmts() if s["k"] == "assign" and s["place"]["l"] == 1 and s["place"]["p"] and s["place"]["p"][0]["k"] == "deref"]
     vals = [sig(q.novers(b.rec_rvalue(s["rv"], bi2, si))) for bi2, si, s in asg]
-    r.check(vals == ["try(applytx::apply_tx_batch_impl(self, $2))"], "batch/commit", "*self := the state returned by the impl", "*self is assigned %s" % vals)
+    r.check([v.replace("impl(self, ", "impl($1, ") for v in vals] == ["try(applytx::apply_tx_batch_impl($1, $2))"], "batch/commit", "*self := the state returned by the impl", "*self is assigned %s" % vals)
     # apply_tx = batch of one
     one = ctx.body("melstf::state::UnsealedState::apply_tx", r)
     rr = q.ret_assignments(one)
